@@ -145,6 +145,14 @@ def _measure(ctx, tree, t, label, extents_first=False, lm=None):
     per_node = {}
     for i in range(len(ch)):
         nd = tree.node(i)
+        if len(ch[i]) >= 2 and t["parents"][i] == -1:
+            # a measuring loop asks every furcation for everything and catches what a node does not support (the root has no
+            # parent segment to tilt against): nothing of a refused call may show in later answers
+            for fn in (lm.bif_tilt_remote, lm.bif_tilt_local):
+                try:
+                    fn(nd)
+                except Exception:  # noqa
+                    pass
         per_node[i] = (float(lm.path_distance(nd)), float(lm.euc_distance(nd)), int(lm.branch_order(nd)),
                        int(lm.terminal_degree(nd)))
         if len(ch[i]) == 2:
@@ -165,8 +173,12 @@ def run_case(case, ctx):
     n = len(parents)
     kind = case["kind"]
     twin, new, s = _twin(case)
-    tree_a = gen_tree.build_tree(t, extras=False)
-    tree_b = gen_tree.build_tree(twin, extras=False)
+    # both neurons may carry the same `source` (the twin was derived from a tree that was read from that file)
+    src = "/data/cells/neuron-17.swc" if case["steps"] % 4 < 2 else ""
+    tree_a = gen_tree.build_tree(t, extras=False, source=src)
+    tree_b = gen_tree.build_tree(twin, extras=False, source=src)
+    if src:
+        ctx.cls("both-twins-carry-the-same-source")
     ch = models.children(parents)
     nfurc = sum(1 for c in ch if len(c) >= 2)
     if kind == "rigid":
@@ -505,7 +517,7 @@ SUBCHECKS = [
         required={"kind:rigid": 150, "kind:renumber": 80, "kind:scale": 80, "furcation": 300, "translated-far-away": 60,
                   "finely-traced": 100, "scaled-by-the-library-after-measuring": 40, "extents-asked-first": 300,
                   "sholl-from-a-file-name": 60, "traced-in-steps-of-1/32-and-moved-far-away": 100,
-                  "one-lmeasure-object-for-both-twins": 300}),
+                  "one-lmeasure-object-for-both-twins": 300, "both-twins-carry-the-same-source": 600}),
     Sub("scale_pow2", pow2_strategy, run_pow2, quick=300, thorough=4000, shards_quick=4, required={"tiny": 60, "huge": 60}),
     Sub("volume_mc", volume_mc_strategy, run_volume_mc, quick=40, thorough=640, shards_quick=8,
         required={"siblings-reordered": 8, "daughter-cones-overlap>1%": 8, "family:axis-parallel": 4, "family:oblique": 8}),
